@@ -75,7 +75,11 @@ def main():
             if not found:
                 rep.violation("proof-or-correspondence-break", b.what,
                               {"no_longer_checks": b.what, "detail": b.detail[-3000:]}, found_input=False)
-        return rep.finish(info.get("level", "proof"), proof=proof, rule=info.get("rule", ""),
+        try:
+            level = json.load(open(os.path.join(VERIF, "tools", "manifest_table.json")))["checks"][prop]["category"]
+        except Exception:
+            level = info.get("level", "proof")
+        return rep.finish(level, proof=proof, rule=info.get("rule", ""),
                           explanation=info.get("explanation", ""), trusted=TRUSTED,
                           checker_cmd="cd /verif/coq && make Properties/%s.vo  (coqc 8.16.1, full .vo build; Print Assumptions under every theorem)" % prop)
     except Exception as e:
